@@ -1,6 +1,7 @@
 package el
 
 import (
+	"github.com/pkg/errors"
 	"regexp"
 	"strings"
 )
@@ -35,12 +36,19 @@ func (e *elHelper) content(elr string) string {
 	return elr[e.pre : len(elr)-e.suf]
 }
 
+// maxReplacements bounds the number of substitutions in one text, so that a replacement that keeps producing
+// new expressions (e.g. a configuration value that refers to itself) ends in an error instead of looping forever.
+const maxReplacements = 1 << 10
+
 func (e *elHelper) ReplaceAllContent(s string, f func(content string) (string, error)) (string, error) {
 	var result = s
-	for true {
+	for i := 0; ; i++ {
 		elr := e.FindString(result)
 		if elr == "" {
 			break
+		}
+		if i >= maxReplacements {
+			return "", errors.Errorf("more than %d replacements in '%s': circular reference?", maxReplacements, s)
 		}
 		r, err := f(e.content(elr))
 		if err != nil {
